@@ -67,6 +67,11 @@ func runNaming(e *exec) {
 			continue
 		case "nframe":
 			m, src := mac(o.M), ip(o.M)
+			if o.I%4 == 3 {
+				// an IPv4 link-local source, outside the home LAN: the session tracks no host for it, the
+				// naming handlers still see the frame
+				src = netip.AddrFrom4([4]byte{169, 254, 7, byte(10 + o.M%4)})
+			}
 			switch o.P % 9 {
 			case 0:
 				w.Inject(dnsResponseFrame(u, m, src, o.N))
@@ -144,6 +149,11 @@ func dumpState(e *exec) {
 			}
 			sort.Strings(ips)
 			lines = append(lines, fmt.Sprintf("dns %q -> %q %v", n, d.Name, ips))
+		}
+	}
+	if w.DNS != nil {
+		for _, l := range w.DNS.VerifMDNSCache() {
+			lines = append(lines, "mdnscache "+l)
 		}
 	}
 	if data, ok := readLeaseFile(); ok {
